@@ -266,13 +266,13 @@ func runC04(r *Run, p *Prog) {
 				n++
 				recv := strip(T.T(c.Call.Value))
 				wantPfx := "ext(lookup("
-				okRecv := strings.HasPrefix(recv, wantPfx) && strings.HasSuffix(recv, "interfaces,"+ifaceT+"),0)")
+				okRecv := strings.HasPrefix(recv, wantPfx) && strings.HasSuffix(recv, svcF.Interfaces+","+ifaceT+"),0)")
 				okFact := false
 				for _, f := range T.FactsAt(b) {
-					if f.Op == "EQ" && f.B == "const:true" && strings.HasSuffix(strip(f.A), "interfaces,"+ifaceT+"),1)") {
+					if f.Op == "EQ" && f.B == "const:true" && strings.HasSuffix(strip(f.A), svcF.Interfaces+","+ifaceT+"),1)") {
 						okFact = true
 					}
-					if f.Op == "EQ" && f.A == "const:true" && strings.HasSuffix(strip(f.B), "interfaces,"+ifaceT+"),1)") {
+					if f.Op == "EQ" && f.A == "const:true" && strings.HasSuffix(strip(f.B), svcF.Interfaces+","+ifaceT+"),1)") {
 						okFact = true
 					}
 				}
@@ -294,7 +294,7 @@ func runC04(r *Run, p *Prog) {
 			okArg := strip(T.T(c.Call.Args[2])) == ifaceT
 			okFact := false
 			for _, f := range T.FactsAt(c.Block()) {
-				if f.Op == "EQ" && (f.B == "const:false" && strings.HasSuffix(strip(f.A), "interfaces,"+ifaceT+"),1)") || f.A == "const:false" && strings.HasSuffix(strip(f.B), "interfaces,"+ifaceT+"),1)")) {
+				if f.Op == "EQ" && (f.B == "const:false" && strings.HasSuffix(strip(f.A), svcF.Interfaces+","+ifaceT+"),1)") || f.A == "const:false" && strings.HasSuffix(strip(f.B), svcF.Interfaces+","+ifaceT+"),1)")) {
 					okFact = true
 				}
 			}
